@@ -18,10 +18,16 @@ MUTANTS = [
     {'name': 'kde-model-drops-weights', 'rule': 'D4.kde', 'file': KD, 'old': "return gaussian_kde(dataset, bw_method=self.bw_method, weights=self.weights)", 'new': "return gaussian_kde(dataset, bw_method=self.bw_method)"},
     {'name': 'kde-resample-fixed-size', 'rule': 'D4.kde', 'file': KD, 'old': "                self._sample_size\n            )", 'new': "                1000\n            )"},
     {'name': 'kde-dataset-sorted-unique', 'rule': 'D4.kde', 'file': KD, 'old': "        self._params = {'dataset': X.tolist()}", 'new': "        self._params = {'dataset': np.unique(X).tolist()}"},
+    {'name': 'truncated-bounds-by-truthiness', 'rule': 'D3.bounds', 'file': 'univariate/truncated_gaussian.py',
+     'old': "        minimum = self.min\n        if minimum is None:\n            minimum = X.min() - EPSILON\n", 'new': "        minimum = self.min or X.min() - EPSILON\n"},
+    {'name': 'truncated-max-if-not', 'rule': 'D3.bounds', 'file': 'univariate/truncated_gaussian.py',
+     'old': "        if maximum is None:\n", 'new': "        if not maximum:\n"},
 ]
 REWRITES = [
     {'name': 'gaussian-methods', 'file': 'univariate/gaussian.py', 'old': "self._params = {'loc': np.mean(X), 'scale': np.std(X)}", 'new': "self._params = {'loc': X.mean(), 'scale': X.std()}"},
     {'name': 'uniform-ptp', 'file': 'univariate/uniform.py', 'old': "    def _fit(self, X):\n        self._params = {'loc': np.min(X), 'scale': np.max(X) - np.min(X)}", 'new': "    def _fit(self, X):\n        self._params = {'loc': np.min(X), 'scale': np.ptp(X)}"},
     {'name': 'truncated-fix-bound', 'file': TG, 'old': "(0.0, (maximum - minimum) ** 2)", 'new': "(0.0, maximum - minimum)"},
     {'name': 'gaussian-ddof-zero-explicit', 'file': 'univariate/gaussian.py', 'old': "'scale': np.std(X)}", 'new': "'scale': np.std(X, ddof=0)}"},
+    {'name': 'truncated-bounds-conditional-expression', 'file': 'univariate/truncated_gaussian.py',
+     'old': "        minimum = self.min\n        if minimum is None:\n            minimum = X.min() - EPSILON\n", 'new': "        minimum = X.min() - EPSILON if self.min is None else self.min\n"},
 ]
